@@ -1,8 +1,12 @@
-HOOK_COMMITS = []
+HOOK_COMMITS = ["299a240", "H5 concurrencylimiter yield point (plus go:build follow-up commit)"]
 NOT_APPLICABLE = {}
 CLAIMS = {
     "C03": dict(
         text="Random and edit-related pairs of JSON trees (typed executor forms and post-JSON forms); for each pair Diff's delta is applied by an independent reference applier written from the documented format, by merge.Merge and by the real client/src/merge.ts under node, and compared with the key-stripped new value; also Diff(x,x)=nil, argument immutability, JSON stability of the delta. Exploration, not proof: ~10^4 (quick) to ~10^5-10^6 (thorough) pairs.",
         ref="DESIGN.md 4/C03", technique="property-based round-trip + differential (rapid): Diff → {reference applier, merge.Merge, merge.ts}",
         note="__key values scalar and unique per array; no NaN/Inf; merge.ts leg needs /usr/bin/node (recorded as skipped otherwise)"),
+    "C20": dict(
+        text="Generated multi-goroutine programs over Acquire / release (own, repeated, by another goroutine, during a temporary release) / nested TemporarilyRelease / cancelled and limiter-less contexts, stepped by a driver in a drawn global order with blocked steps left in flight; a verif-tagged yield point inside holder.block lets the driver run other steps inside the re-acquire window. Oracle: an undercounting holder count never exceeds the limit; after wind-down exactly n tokens can be acquired. Exploration of schedules the harness owns, plus -race in the thorough tier.",
+        ref="DESIGN.md 4/C20", technique="stateful property-based testing (rapid) with harness-owned schedule and yield-point injection; invariant over the history",
+        note="holder count undercounts by construction, so a report is a real excess; windows narrower than the instrumented yield site are only reachable by the OS scheduler"),
 }
